@@ -153,7 +153,7 @@ func forwardRequest(client *http.Client, hostProxy http.Handler, request *utils.
 		log.Printf("Request %s: %s %s %v\n", request.RequestID, request.Contents.Method, request.Contents.Host, request.Contents.ContentLength)
 	}
 	if *forwardUserID {
-		httpRequest.Header.Add(utils.HeaderUserID, request.User)
+		httpRequest.Header.Set(utils.HeaderUserID, request.User)
 	}
 	if *stripCredentials {
 		httpRequest.Header.Del(headerAuthorization)
